@@ -173,7 +173,7 @@ def fuzz_campaign(ctx, oracle, runs, max_len=512):
         cmd = [sys.executable, "-m", "tv.fuzz_target", "--oracle", oracle, "--out", out]
         if ctx.shard % 2:
             cmd.append("--seeded")
-        cmd += [f"-runs={runs}", f"-seed={derive_seed(ctx.seed, oracle, ctx.shard, 'fuzz') % (2**31 - 1) + 1}", f"-max_len={max_len}", "-print_final_stats=0", "-verbosity=0"]
+        cmd += [f"-runs={runs}", f"-seed={derive_seed(ctx.seed, oracle, ctx.shard, 'fuzz') % (2**31 - 1) + 1}", f"-max_len={max_len}", "-print_final_stats=0", "-verbosity=0", f"-artifact_prefix={out}/"]
         env = dict(os.environ, PYTHONHASHSEED="0")
         p = subprocess.run(cmd, cwd=VERIF, env=env, capture_output=True, text=True)
         stats = {}
